@@ -128,6 +128,44 @@ def prove (t : Tree A D) : Option D × Option A × List D × Nat × Nat :=
   | _, none => (root hn t, none, [], t.pidx, t.cur)
   | hd :: rest, some lf => (root hn t, some lf, finish hn hd rest t.sibs, t.pidx, t.cur)
 
+/-- `Tree.SetIndex`: refused (`none`, state unchanged) unless the tree is empty -/
+def setIndex (t : Tree A D) (i : Nat) : Option (Tree A D) :=
+  if t.stack.isEmpty then some { t with pidx := i, proofTree := true } else none
+
+/-- the calls of a tree history.  `root` and `prove` are the OBSERVATION calls `Root()` / `Prove()`;
+    `sub h X` is `PushSubTree(h, s)` with `s` the root of the cached tree over the leaves `X`. -/
+inductive HOp (A : Type)
+  | push (x : A)
+  | sub (h : Nat) (X : List A)
+  | root
+  | prove
+
+/-- what the caller sees -/
+inductive Obs (A D : Type)
+  | root (r : Option D)
+  | prove (r : Option D × Option A × List D × Nat × Nat)
+  | refused (e : SubErr)
+deriving DecidableEq
+
+/-- one call: the state it leaves behind and what it returns.  The observation calls leave the state they found
+    (`Root` works on copies of the sub-tree stack, `Prove` on a copy of the proof set); a refused `PushSubTree` too. -/
+def hstep [Inhabited D] (t : Tree A D) : HOp A → Tree A D × Option (Obs A D)
+  | .push x => (push hl hn t x, none)
+  | .sub h X =>
+    match pushSubTree hn t h (MTH hl hn X) with
+    | .ok t' => (t', none)
+    | .error e => (t, some (.refused e))
+  | .root => (t, some (.root (root hn t)))
+  | .prove => (t, some (.prove (prove hn t)))
+
+/-- a history: final state and the observations in order -/
+def hrun [Inhabited D] (t : Tree A D) : List (HOp A) → Tree A D × List (Obs A D)
+  | [] => (t, [])
+  | op :: ops =>
+    let r := hstep hl hn t op
+    let r' := hrun r.1 ops
+    (r'.1, r.2.toList ++ r'.2)
+
 /-- the `for { … }` loop of `VerifyProof`; `rem` = `proofSet[height:]`; result = (sum, stableEnd, rest of proofSet),
     `none` = `return false`.  `fuel` only makes the recursion structural (`numLeaves` is always enough). -/
 def verifyLoop (i n : Nat) : Nat → Nat → D → Nat → List D → Option (D × Nat × List D)
@@ -287,6 +325,12 @@ def tamper (kind : String) (a : Nat) (n : Nat) (rt : Option Sym) (lf : Option By
     else some (rt, lf, sibs, i)
   | _ => none
 
+def showObs : Option (Obs Bytes Bytes) → String
+  | some (.root r) => optHex r
+  | some (.prove (rt, lf, sibs, pi, nl)) =>
+    s!"{optHex rt} {toHex nl} {proofHex lf sibs} {boolStr (verifyProof shaL shaN rt lf sibs pi nl)}"
+  | _ => "bad-op"
+
 def runDecomp (i : Option Nat) (ops : List String) : String := Id.run do
   let mut t : Tree Bytes Bytes := match i with
     | some k => { pidx := k, proofTree := true }
@@ -312,12 +356,23 @@ def runDecomp (i : Option Nat) (ops : List String) : String := Id.run do
       let sg := parseHexD seg
       if sg = 0 then outs := outs ++ ["bad-op"] else
       t := readAll shaL shaN t b sg; flat := flat ++ chunks sg b.length b; outs := outs ++ ["ok"]
+    | ["Or"] =>
+      let r := hstep shaL shaN t .root
+      t := r.1; outs := outs ++ [showObs r.2]
+    | ["Op"] =>
+      if !t.proofTree then outs := outs ++ ["bad-op"] else
+      let r := hstep shaL shaN t .prove
+      t := r.1; outs := outs ++ [showObs r.2]
+    | ["I", k] =>
+      match setIndex t (parseHexD k) with
+      | some t' => t := t'; outs := outs ++ ["ok"]
+      | none => outs := outs ++ ["err:notempty"]
     | _ => outs := outs ++ ["bad-op"]
   let t0 : Tree Bytes Bytes := { t with stack := [], cur := 0, pleaf := none, sibs := [] }
   let tf := pushAll shaL shaN t0 flat
-  match i with
-  | none => return " ".intercalate (outs ++ [optHex (root shaN t), boolStr (root shaN t == root shaN tf)])
-  | some _ =>
+  match t.proofTree with
+  | false => return " ".intercalate (outs ++ [optHex (root shaN t), boolStr (root shaN t == root shaN tf)])
+  | true =>
     let a := showProve shaL shaN id t
     return " ".intercalate (outs ++ [a, boolStr (a == showProve shaL shaN id tf)])
 
@@ -362,6 +417,26 @@ def vxHandle (n : Nat) (i : Int) (pat kind : String) (a : Int) : String :=
       | s :: pf' => ver pf' (i / 2) (if i % 2 = 1 then Sym.node s lf else Sym.node lf s) rt
     | _ => "bad-op"
 
+/-- `vxi`: leaf, proof and root of position `p`, verified at every index of the list -/
+def vxIdxHandle (n : Nat) (p : Int) (pat : String) (js : List Int) : String :=
+  if n = 0 then "bad-op" else
+  let z := Sym.atom 0
+  let L := vxLeaves pat n
+  if p < 0 then "err:range" else
+  match vopen Sym.node z L p.toNat with
+  | none => "err:range"
+  | some pf =>
+    let lf := (padded z L).getD p.toNat z
+    let rt := vroot Sym.node z L
+    " ".intercalate ("ok" :: js.map (fun j => boolStr (decide (0 ≤ j) && vverify Sym.node n pf j.toNat lf rt)))
+
+/-- `accti`: the proof `Prove()` returns for (n, i), verified at every (index, numLeaves) pair of the list -/
+def accIdxHandle (n i seed : Nat) (pairs : List String) : String :=
+  let (rt, lf, sibs, _, _) := prove Sym.node (symTree n i seed)
+  match pairs.mapM (fun s => match s.splitOn ":" with | [j, m] => some (parseHexD j, parseHexD m) | _ => none) with
+  | none => "bad-op"
+  | some ps => " ".intercalate (ps.map (fun (j, m) => boolStr (verifyProof Sym.leaf Sym.node rt lf sibs j m)))
+
 def handle : List String → String
   | ["acc", "sha256", n, i, seed] =>
     let t : Tree Bytes Bytes := { pidx := parseHexD i, proofTree := true }
@@ -376,6 +451,8 @@ def handle : List String → String
     | none => "bad-op"
     | some (rt', lf', sibs', pi') => boolStr (verifyProof Sym.leaf Sym.node rt' lf' sibs' pi' nl)
   | "accd" :: "sha256" :: i :: ops => runDecomp (if i == "x" then none else some (parseHexD i)) ops
+  | ["accti", "sha256", n, i, seed, pairs] => accIdxHandle (parseHexD n) (parseHexD i) (parseHexD seed) (pairs.splitOn ",")
+  | ["vxi", n, p, pat, _seed, js] => vxIdxHandle (parseHexD n) (parseInt p) pat ((js.splitOn ",").map parseInt)
   | ["vx", n, i, pat, _seed, kind, a] => vxHandle (parseHexD n) (parseInt i) pat kind (parseInt a)
   | _ => "bad-op"
 
